@@ -166,6 +166,15 @@ pub fn run(run: &mut Run) -> PResult {
         }
     }
     run.generator("structured deck indexes", "exhaustive+structured", None, n, n - 52, "0..4096, powers of two +-1, usize::MAX; non-trivial = indexes at or past the end");
+    if !run.is_twin() {
+        let items: Vec<usize> = (0..130).chain([4095, 4096, (1usize << 32) - 1, 1usize << 32, (1usize << 32) + 1, (1usize << 32) + 51, usize::MAX - 1, usize::MAX]).collect();
+        let hit = engine::ordered_pairs(&items, &|a| { std::hint::black_box(Deck::get(*a)); }, &|b| index_clause(*b));
+        let np = (items.len() * items.len()) as u64;
+        run.generator("ordered pairs of deck indexes read back to back", "exhaustive (histories of length 2)", Some(np), np, np, "0..130 and the extreme indexes");
+        if let Some((a, b, m)) = hit {
+            return run.violation("C18.index", &format!("{} ; {}", items[a], items[b]), json!({"index": items[b] as u64, "after": items[a] as u64}), &format!("after Deck::get({}): {}", items[a], m));
+        }
+    }
     let cases = (if run.tier == Tier::Thorough { 1_000_000 } else { 100_000 }) / if run.is_twin() { 4 } else { 1 };
     let cnt = std::cell::Cell::new(0u64);
     let distinct = std::cell::RefCell::new(engine::Distinct::new());
@@ -201,7 +210,12 @@ pub fn check_case(clause: &str, case: &Value) -> Result<(), String> {
             }
             Err("unknown table".into())
         }
-        "C18.index" => index_clause(case["index"].as_u64().ok_or("index")? as usize),
+        "C18.index" => {
+            if let Some(a) = case.get("after").and_then(|x| x.as_u64()) {
+                std::hint::black_box(Deck::get(a as usize));
+            }
+            index_clause(case["index"].as_u64().ok_or("index")? as usize)
+        }
         _ => Err(format!("unknown clause {}", clause)),
     }
 }
